@@ -1,4 +1,4 @@
-# C11 stale warm_up_candles (what indicators slice to). Scratch dir: PYTHONPATH=/repo /venv/bin/python C11_warmup_size.py [crash]
+# C11 stale warm_up_candles (what indicators slice to). Scratch dir: PYTHONPATH=/repo /venv/bin/python C11_warmup_size.py [crash] [other]
 import numpy as np, sys, jesse.helpers as jh
 from jesse.research import backtest
 from jesse.strategies import Strategy
@@ -9,12 +9,12 @@ class S(Strategy):
         if 'crash' in sys.argv and len(seen) == 1: raise RuntimeError('earlier session aborts in a hook')
         return False
     def go_long(self): pass
-def run(warm):
+def run(warm, ex='Sandbox'):
     cfg = {'starting_balance': 1000, 'fee': 0, 'type': 'futures', 'futures_leverage': 2, 'futures_leverage_mode': 'cross',
-           'exchange': 'Sandbox', 'warm_up_candles': warm}
+           'exchange': ex, 'warm_up_candles': warm}
     c = np.array([[1609459200000 + i * 60_000, 100, 100, 101, 99, 1] for i in range(30)], dtype=float)
-    backtest(cfg, [{'exchange': 'Sandbox', 'strategy': S, 'symbol': 'BTC-USDT', 'timeframe': '1m'}], [],
-             {'Sandbox-BTC-USDT': {'exchange': 'Sandbox', 'symbol': 'BTC-USDT', 'candles': c}})
-try: run(40)
+    backtest(cfg, [{'exchange': ex, 'strategy': S, 'symbol': 'BTC-USDT', 'timeframe': '1m'}], [],
+             {ex + '-BTC-USDT': {'exchange': ex, 'symbol': 'BTC-USDT', 'candles': c}})
+try: run(40, 'Bybit USDT Perpetual' if 'other' in sys.argv else 'Sandbox')
 except RuntimeError: pass
 run(200); print('probe(warm_up_candles=200): indicators see the last', seen[-1], 'candles'); assert seen[-1] == 200
